@@ -168,7 +168,7 @@ Proof.
 Qed.
 
 (* the item lines in the text are section_lines of the sections of the in-memory file after the
-   call (for ~Version: of the copy in which VERS was substituted) *)
+   call (for ~Version: of the copy in which DLM was set to SPACE and VERS was substituted) *)
 Lemma write_sections_lines ver wrapo ifmt m hs :
   write_sections ver wrapo ifmt m = Some hs ->
   section_lines fstr (hs_version hs) (s2l "Version") (hs_vers_items hs) = Some (hs_lv hs) /\
